@@ -20,6 +20,7 @@ def main(argv=None) -> int:
     c.add_argument("--tier", default=os.environ.get("VERIF_TIER", "quick"), choices=["quick", "thorough"])
     c.add_argument("--root", default="/repo")
     c.add_argument("--no-selftest", action="store_true")
+    c.add_argument("--no-write", action="store_true", help="do not write evidence / replay files (used when a tool runs the check on a scratch tree)")
     e = sub.add_parser("explain")
     e.add_argument("replay")
     e.add_argument("--root", default=None)
@@ -47,7 +48,7 @@ def main(argv=None) -> int:
         if not a.no_selftest:
             from .selftest import run_for_property
             st = run_for_property
-        return check_property(a.pid, props.PROPS[a.pid], a.root, a.tier, seed, selftest=st)
+        return check_property(a.pid, props.PROPS[a.pid], a.root, a.tier, seed, selftest=st, write=not a.no_write)
     if a.cmd == "explain":
         from .core import Repo
         r = json.load(open(a.replay))
